@@ -30,6 +30,9 @@ A *case* is a structural description, never source text::
                  "forif"   like "fors" but the scoped block sits inside {% if i %} inside the loop body
                  "forwith" like "fors" but inside {% with w = i %} inside the loop body
                  "for2"    {% for o in ["m","n"] %}{{ loop.index }}<forif loop>{% endfor %}  (outer loop uses `loop`)
+                 "forfilter" the "fors" loop inside {% filter string %}..{% endfilter %}      (buffered frames: the
+                 "forset"    the "fors" loop inside {% set sv %}..{% endset %}{{ sv }}          block call is compiled
+                 "forrec"    the "fors" loop declared `recursive`                               on the slow path)
                  "loop"    {% block x %}<xL{{ i }}#{{ loop.index }}/{{ loop.length }}>{% endblock %}  (sees the loop
                            of a scoped block tag placed in a loop; otherwise `loop` is undefined -> UndefinedError)
                  "selfsuper" ... <xL{{ i }}:{{ self.y() }}:{{ super() }}>        both in one body
@@ -44,6 +47,8 @@ A *case* is a structural description, never source text::
     misplaced or wrongly suppressed output changes the rendered string.  Loop
     values differ per level (LOOP_VALUES).  "alt" is a fixed root template.
 
+    async_cases(bound, shard=None) the cases of the plans flagged "async": True -- to be rendered a second time with
+                                  enable_async=True (same expected answer)
     cases(bound, shard=None)      iterator over all cases of a bound, simplest first, deterministic.
                                   bound = "quick" | "thorough" | list of plans (see BOUNDS).
                                   shard = (k, n): the k-th of n disjoint parts (split on the combination of
@@ -81,10 +86,11 @@ KINDS_ROOT = KINDS_CHILD + ("req",)
 KINDS_REDUCED = ("-", "super", "nest", "fors")
 KINDS_REDUCED_ROOT = KINDS_REDUCED + ("req",)
 KINDS_LOOP = {"root": ("text", "fors", "foru", "forif", "forwith", "for2"), "child": ("-", "text", "super", "loop")}
-KINDS_LOOP2 = {"root": ("text", "nest", "forif", "forwith", "for2"), "child": ("-", "text", "loop")}
+KINDS_BUF = {"root": ("text", "fors", "forfilter", "forset", "forrec"), "child": ("-", "text", "super", "loop")}
+KINDS_LOOP2 = {"root": ("text", "nest", "forif", "forwith", "for2", "forfilter", "forset", "forrec"), "child": ("-", "text", "loop")}
 KINDS_BOTH = {"root": ("-", "text", "self"), "child": ("-", "text", "super", "selfsuper", "selfss")}
 KINDS_BOTH3 = {"root": ("-", "text", "self"), "child": ("-", "text", "selfsuper", "selfss")}
-FOR_KINDS = ("fors", "foru", "forif", "forwith", "for2")
+FOR_KINDS = ("fors", "foru", "forif", "forwith", "for2", "forfilter", "forset", "forrec")
 LOOP_VALUES = (("p", "q"), ("r", "s"), ("t", "u"), ("v", "w"))
 OUTER_VALUES = ("m", "n")
 ALT = "alt"
@@ -169,7 +175,8 @@ BOUNDS = {
         {"depth": 3, "names": ("a",), "kinds": "full", "forms": ("lit",), "selfcall": "names"},
         # small extra plans: scoped blocks that are not direct children of the loop body x overrides
         # using `loop`; block bodies using self.y() and super() together
-        {"depth": 2, "names": ("a",), "kinds": KINDS_LOOP, "forms": EXT_FORMS, "selfcall": "none"},
+        {"depth": 2, "names": ("a",), "kinds": KINDS_LOOP, "forms": EXT_FORMS, "selfcall": "none", "async": True},
+        {"depth": 2, "names": ("a",), "kinds": KINDS_BUF, "forms": ("lit", "if"), "selfcall": "none", "async": True},
         {"depth": 3, "names": ("a",), "kinds": KINDS_LOOP, "forms": ("lit",), "selfcall": "none"},
         {"depth": 2, "names": ("a", "b"), "kinds": KINDS_LOOP2, "forms": ("lit",), "selfcall": "none"},
         {"depth": 2, "names": ("a", "b"), "kinds": KINDS_BOTH, "forms": ("lit", "if"), "selfcall": "none"},
@@ -185,7 +192,8 @@ BOUNDS = {
         {"depth": 4, "names": ("a",), "kinds": "full", "forms": EXT_FORMS, "selfcall": "none"},
         # small extra plans: scoped blocks that are not direct children of the loop body x overrides
         # using `loop`; block bodies using self.y() and super() together
-        {"depth": 2, "names": ("a",), "kinds": KINDS_LOOP, "forms": EXT_FORMS, "selfcall": "none"},
+        {"depth": 2, "names": ("a",), "kinds": KINDS_LOOP, "forms": EXT_FORMS, "selfcall": "none", "async": True},
+        {"depth": 2, "names": ("a",), "kinds": KINDS_BUF, "forms": ("lit", "if"), "selfcall": "none", "async": True},
         {"depth": 3, "names": ("a",), "kinds": KINDS_LOOP, "forms": EXT_FORMS, "selfcall": "none"},
         {"depth": 2, "names": ("a", "b"), "kinds": KINDS_LOOP2, "forms": ("lit",), "selfcall": "none"},
         {"depth": 2, "names": ("a", "b"), "kinds": KINDS_BOTH, "forms": ("lit", "if"), "selfcall": "none"},
@@ -261,6 +269,12 @@ def cases(bound="quick", shard=None):
         yield from _plan_cases(plan, shard)
 
 
+def async_cases(bound="quick", shard=None):
+    for plan in plans(bound):
+        if plan.get("async"):
+            yield from _plan_cases(plan, shard)
+
+
 def count(bound="quick"):
     return sum(1 for _ in cases(bound))
 
@@ -313,6 +327,14 @@ def _block_src(names, kinds, lv, x):
             return inner
         outer = "[" + ", ".join(f'"{v}"' for v in OUTER_VALUES) + "]"
         return f"{{% for o in {outer} %}}{{{{ loop.index }}}}{inner}{{% endfor %}}"
+    if k in ("forfilter", "forset", "forrec"):
+        rec = " recursive" if k == "forrec" else ""
+        loop = (f"{{% for i in {_loop_lit(lv)}{rec} %}}({{% block {x} scoped %}}{tag}>{{% endblock %}}){{% endfor %}}")
+        if k == "forfilter":
+            return "{% filter string %}" + loop + "{% endfilter %}"
+        if k == "forset":
+            return "{% set sv %}" + loop + "{% endset %}{{ sv }}"
+        return loop
     if k == "forwith":
         return (f"{{% for i in {_loop_lit(lv)} %}}({{% with w = i %}}{{% block {x} scoped %}}{tag}>{{% endblock %}}"
                 f"{{% endwith %}}){{% endfor %}}")
